@@ -187,6 +187,7 @@ CONTROLS = {
         ("R6: classification of the syscall result neutralised", [("nomt::io::platform::run_worker", neutralise_call("IoKind::get_result"))], "R6|"),
         ("R6c: a failed completion is normalised to -9 instead of -1", [("nomt::io::platform::run_worker", replace_const("-1_i32", 4294967287, "-9_i32"))], "failed-completion-can-fail"),
         ("R4: poisoning store neutralised", [("nomt::store::Store::commit", neutralise_call("::store"))], "R4|store::Store::commit"),
+        ("R9: fallocate behind cvt_r becomes posix_fallocate (which returns the error number)", [("nomt::sys::linux::falloc_zero_file::{closure#0}", retarget_call("::fallocate", "libc::posix_fallocate", "i32"))], "R9|"),
         ("R8: write_all of the rollback record becomes a plain write whose count is dropped", [("nomt::seglog::segment_rw::SegmentFileWriter::write_payload", retarget_call("::write_all", "<std::fs::File as std::io::Write>::write", "core::result::Result<usize, std::io::error::Error>"))], "R8|"),
     ],
     "C15": [
